@@ -150,9 +150,71 @@ for _n, _t in [("exactly_0", "quick"), ("exactly_1", "quick"), ("exactly_3", "qu
                           "repetition range and multiplicity from the constant table (%s); body variance symbolic below 2^40" % _n,
                           "range_soundness"))
 
+import json as _json
+import os as _os
+
+_ROWS = _json.load(open(_os.path.join(_os.path.dirname(_os.path.abspath(__file__)), "rows.json")))
+
+
+def row_specs(tier, seed):
+    """C14 rows: all in the thorough tier, a seeded sample (about a fifth, every base and prefix
+    represented) in the quick tier."""
+    import random
+    rnd = random.Random(seed)
+    ks = sorted({r["k"] for r in _ROWS})
+    if tier == "quick":
+        keep = set(rnd.sample(ks, 22))
+        # always include one rooted and one `..` row and the deepest unrooted prefixed row
+        for r in _ROWS:
+            if (r["prefix"], r["base"], len(r["tail"])) in (("/p/", "b", 2), ("../", "b", 1), ("p/q/", "./b", 3)):
+                keep.add(r["k"])
+    else:
+        keep = set(ks)
+    out = []
+    for r in _ROWS:
+        if r["k"] not in keep:
+            continue
+        name = "row_%03d%s" % (r["k"], ("_" + r["part"]) if r["part"] else "")
+        out.append({"name": "walk::glob::verif_kani::rows::" + name, "props": ["C14"], "tier": "quick",
+                    "functions": ["walk::JoinAndGetDepth::join_and_get_depth", "walk::glob::root_relative_paths",
+                                  "walk::SplitAtDepth::split_at_depth", "GlobEntry::root_relative_paths",
+                                  "GlobEntry::depth"],
+                    "bounds": "concrete row base=%r prefix=%r entry=%r (walkdir depth %d), clause=%s; symbolic file/dir flag; unwind 16"
+                              % (r["base"], r["prefix"], r["path"], r["wd_depth"], r["part"] or "paths+depth"),
+                    "stubs": [], "replay": "entry_rows_depth" if r["part"] == "depth" else "entry_rows", "row": r})
+    return out
+
+_CROWS = _json.load(open(_os.path.join(_os.path.dirname(_os.path.abspath(__file__)), "closure_rows.json")))
+CLOSURE_STUBS = ["<walkdir::IntoIter as std::iter::Iterator>::next", "walkdir::IntoIter::skip_current_dir",
+                 "regex::Regex::is_match", "regex::Regex::captures", "crate::capture::MatchedText::into_owned"]
+
+
+def closure_specs(tier):
+    out = []
+    for r in _CROWS:
+        if tier != "thorough" and r["tier"] != "quick":
+            continue
+        # quick tier: one shallow and one deep entry per family
+        if tier != "thorough" and r["wd_depth"] not in (1, 2):
+            continue
+        replay = "closure_rooted" if r["rooted"] else ("closure_parent" if r["prefix"].startswith("..") else "closure")
+        out.append({"name": "walk::glob::verif_kani::closure::step_" + r["name"], "props": ["C02"], "tier": "quick",
+                    "functions": ["GlobWalker::walk_with_behavior (filter_map_tree closure)", "walk::glob::root_relative_paths",
+                                  "WalkTree::with_pivot_and_behavior", "WalkTree::next", "WalkTree::cancel_walk_tree",
+                                  "FilterMapTree::feed", "Filtrate::filter_tree", "Filtrate::filter_node"],
+                    "bounds": "concrete row base=%r prefix=%r entry=%r (walkdir depth %d), %d component programs; symbolic: every regex verdict, file/dir flag; unwind 16"
+                              % (r["base"], r["prefix"], r["path"], r["wd_depth"], r["k"]),
+                    "stubs": CLOSURE_STUBS, "replay": replay, "heavy": True, "row": r})
+    return out
+
 
 def for_property(pid, tier):
+    if pid == "C14":
+        from core import seed
+        return row_specs(tier, seed())
     out = []
+    if pid == "C02":
+        out += closure_specs(tier)
     for h in HARNESSES:
         if pid in h["props"] and (tier == "thorough" or h["tier"] == "quick"):
             out.append(h)
